@@ -179,7 +179,13 @@ def c13(report):
     for feat in feats:
         over = dict(Feat=feat, QueryRows={0}, Labels={"a", "b", "c", "d"}, InitArms=["a", "b", "c"], MaxBatch=1,
                     Quantiles={(0, 1), (1, 4), (1, 2), (1, 1)}, Rewards={1, 3})
-        jobs += cf_jobs(WARM_LPS, report.tier, report.seed, ops=ops, over=over, tag="-" + feat, sims=(feat == "std"))
+        fj = cf_jobs(WARM_LPS, report.tier, report.seed, ops=ops, over=over, tag="-" + feat, sims=(feat == "std"),
+                     checks=("state",))
+        for job in fj:       # ties between equally distant trained arms: every label type, also in the quick tier
+            if job["mode"] == "bfs" and feat != "std":
+                lp = job["consts"]["LP"]
+                job["bindings"] = bindings_for(lp, "quick", report.seed, want=3)
+        jobs += fj
     for job in jobs:
         if job["consts"]["LP"] == "ts":
             job["consts"]["Rewards"] = {0, 1}
@@ -199,8 +205,24 @@ def c14(report):
     for b in dict.fromkeys(bins):
         rewards = {0, 1} if b == "flip" else {0, 2, 3}
         over = dict(InitBin=b, Rewards=rewards, NewBins={"keep", "flip" if b != "flip" else "thr"}, QueryRows={0})
-        jobs += cf_jobs(["ts"], report.tier, report.seed, over=over, tag="-" + b)
-    ecf.run_jobs(report, jobs, by_clause("state.acc", "state.bin", "call.exception", "fresh", "confluence"))
+        bj = cf_jobs(["ts"], report.tier, report.seed, over=over, tag="-" + b)
+        for job in bj:        # integer-typed 0/1 rewards must be converted like any others
+            if not any(x.get("dtype") == "int" for x in job["bindings"]):
+                job["bindings"] = job["bindings"] + [dict(labelmap="int", unit=1, dtype="int")]
+        jobs += bj
+    ecf.defer(jobs, by_clause("state.acc", "state.bin", "call.exception", "fresh", "confluence"))
+    # under every neighbourhood policy: a bandit with a binarizer against a bandit fed the converted rewards, same seed
+    def variants(lp, np_, i):
+        b = ["thr", "ge2"][(i + report.seed) % 2]
+        nb = ["flip", "thr", "ge2"][(i + report.seed) % 3]
+        return [dict(bin_name=b, addarm_bin=nb), dict(preconv=b, addarm_bin=nb)]
+    xjobs = cross_jobs(report.tier, report.seed, variants, "exact", FULL_OPS, only=lambda c: c[0] == "ts", tag="-c14")
+    for job in xjobs:
+        for bkw in job["bindings"]:
+            if bkw["np_"] is not None:
+                bkw["n_jobs"] = 1
+    ecf.defer(xjobs, by_clause("cross.", "call.exception"))
+    ecf.flush(report)
     _nontrivial_from_counts(report, "cf.op.partial_fit")
 
 
@@ -210,7 +232,7 @@ def c17(report):
     for lp in CF_LPS:
         kinds = set(ecf.REJECTS_CF)
         if lp == "ts":
-            kinds |= {"ts_nonbinary"}
+            kinds |= {"ts_nonbinary", "add_binarizer_not_callable"}
             kinds -= {"add_binarizer_non_ts"}
         over = dict(RejectKinds=kinds, QueryRows={0}, Rewards={1, 3} if lp != "ts" else {0, 1})
         jobs += cf_jobs([lp], report.tier, report.seed, ops=FULL_OPS | {"reject", "warm_start"}, over=over, checks=("reject",))
@@ -504,7 +526,7 @@ def combos(tier, seed, only=None):
     allc = [(lp, np_) for np_ in gen.NPS for lp in gen.LPS if gen.valid(lp, np_)]
     if only:
         allc = [c for c in allc if only(c)]
-    if tier == "thorough":
+    if tier == "thorough" or len(allc) <= 9:
         return allc
     third = [c for i, c in enumerate(allc) if (i + seed) % 3 == 0]
     must = [("ts", "lsh"), ("lin-ts", "radius"), ("ucb1", "tree"), ("softmax", "clusters"), ("lin-ucb", None), ("pop", None)]
@@ -779,7 +801,8 @@ def c20(report):
         return [dict(labelmap=m) for m in ("int", "str", "float")]
     jobs = cross_jobs(report.tier, report.seed, relabel, "exact", ops, tag="-relabel")
     def perm(lp, np_, i):
-        return [dict(perm_seed=None), dict(perm_seed=1 + i), dict(perm_seed=50 + i)]
+        extra = dict(bin_name="thr") if lp == "ts" else {}       # arm-dependent binarizer: rows and arms must stay aligned
+        return [dict(perm_seed=None, **extra), dict(perm_seed=1 + i, **extra), dict(perm_seed=50 + i, **extra)]
     row_ok = lambda c: c[1] in (None, "radius", "lsh") and c[0] != "random"
     jobs += cross_jobs(report.tier, report.seed + 1, perm, "close", {"fit", "partial_fit", "predict_expectations"}, only=row_ok,
                        tag="-roworder")
